@@ -22,7 +22,10 @@ asyncio) and on real loopback sockets / a real pty child, with identity-tracked 
 ParamikoTransport.open() (connect / handshake / host key / authentication / open_session / pty / shell) on recording stub
 library objects and on in-process loopback ssh servers — whatever open() acquired before the failing step is released
 at the with-block exit / after close(), and the connection opens again; the pty-child suite also opens OVER an existing
-session (open, open; open, with; re-open after a device drop) and observes every child the connection ever started."""
+session (open, open; open, with; re-open after a device drop) and observes every child the connection ever started;
+(9) CANCELLATION histories (gen_cancel, ORACLE-ONLY, asyncio): the device goes quiet for good with no scrapli timeout running and
+the awaiting close() / __aexit__ / open() / operation is cancelled from outside (asyncio.wait_for expiring, task.cancel() once and
+twice) — after close() / the with-block, however it ended, transport flag, isalive, channel-log handle and fds are released."""
 import asyncio
 import json
 import os
@@ -102,11 +105,28 @@ class Scenario:
         self.r = L.ARunner(stack)
         self.has_open_hook = self.d.on_open is not None
         self.has_close_hook = self.d.on_close is not None
+        # histories with cancellation faults: asyncio only (fault kind "hang" + op["cancel"]: "task" | "wait_for")
+        self.cancellable = bool(sc.get("cancellable")) and stack == "async"
+        self.stats = None
 
     # -- the operations ------------------------------------------------------------------------
-    def _operate(self, conn, phase):
+    def _call(self, fn, op):
+        """cancellable histories (asyncio): the call runs as a task that is cancelled whenever the silent device makes it
+        wait for ever (L.ARunner.call_cancelling); everything else: a plain call"""
+        if self.cancellable:
+            try:
+                _, self.stats = self.r.call_cancelling(fn, self.t, how=op.get("cancel") or "task")
+            except BaseException as e:  # noqa
+                self.stats = getattr(e, "_c11_stats", None)
+                raise
+        else:
+            self.r.call(fn)
+
+    def _operate(self, conn, phase, op=None):
         prev, self.t.phase = self.t.phase, phase
         try:
+            if self.cancellable:
+                return self._call(lambda: conn.send_command("show version"), op or {})
             return self.r.call(conn.send_command, "show version")
         finally:
             self.t.phase = prev
@@ -132,7 +152,10 @@ class Scenario:
                             t.phase = prev
                     if body_exc:
                         raise L.exc_by_name(body_exc)("body failure")
-            self.r.loop.run_until_complete(go())
+            if self.cancellable:
+                self._call(go, op)
+            else:
+                self.r.loop.run_until_complete(go())
 
     def run(self):
         from scrapli.settings import Settings
@@ -156,17 +179,22 @@ class Scenario:
             if op.get("open_fail"):
                 t.open_fail = L.exc_by_name(op["open_fail"])
             res = "ok"
+            self.stats = None
             try:
                 if op["op"] == "open":
-                    self.r.call(d.open)
+                    self._call(d.open, op)
                 elif op["op"] == "close":
-                    self.r.call(d.close)
+                    self._call(d.close, op)
                 elif op["op"] == "operate":
-                    self._operate(d, "operate")
+                    self._operate(d, "operate", op)
                 elif op["op"] == "with":
                     self._with(op)
                 else:
                     raise ValueError(op["op"])
+            except asyncio.CancelledError:
+                if not self.cancellable:
+                    raise
+                res, scrapli_exc = "CancelledError", False     # the operation ended by being cancelled
             except Exception as e:  # noqa  (BaseExceptions — Starved — are harness failures and propagate)
                 res = type(e).__name__
                 import scrapli.exceptions as se
@@ -187,7 +215,20 @@ class Scenario:
                 "counts": {k: list(v) for k, v in t.count.items() if k},
                 "sessions": t.sessions,
             })
+            if self.cancellable:
+                obs[-1]["hangs_ended"] = dict(self.stats) if self.stats else None
+        # tear-down (after the last observation; NOT under test): a history may legitimately end with the connection open
+        # (last op open / a failed on_open): close what it left so that no handle of THIS scenario is around when the next one
+        # (or a shrink candidate, which re-uses the log path) counts its fds
+        try:
+            cl = self.d.channel.channel_log
+            if cl is not None and not cl.closed:
+                cl.close()
+        except Exception:  # noqa
+            pass
         self.r.close()
+        import gc
+        gc.collect()
         return obs
 
 
@@ -428,6 +469,86 @@ def gen_no_terminate(seed, thorough):
     return out
 
 
+SIG_AENTER = "c11-with-cancelled-in-aenter"
+CANCEL_RES = ("CancelledError", "TimeoutError")
+
+
+def _hang(phase, at=1):
+    return {"phase": phase, "kind": "hang", "at": at}
+
+
+def gen_cancel(seed, thorough):
+    """asyncio histories with CANCELLATION faults (ORACLE-ONLY, own generator stream): the device goes quiet for good
+    (fault kind "hang": connected, silent, no scrapli timeout running) and the awaiting call is cancelled from outside —
+    `asyncio.wait_for(conn.close(), t)` expiring ("wait_for") or task.cancel() ("task"; at every further wait too, so a
+    with-block whose body is cancelled is cancelled a second time inside __aexit__ -> close() -> on_close).
+    Shapes per driver kind (default platform hooks; generic: a user hook that talks to the device):
+      close() cancelled in on_close (wait_for | task), then close, re-open, close
+      with-block: on_close waits (cancelled once: wait_for | task); body waits (cancelled twice: task,task | wait_for,task)
+      open() cancelled in on_open, then close() (cancelled again: the device is still quiet), re-open, operate, close
+      operate cancelled, then close() cancelled, close again
+      with-block cancelled inside __aenter__ (open() -> on_open waiting; fixed finding %s), then open, operate, close"""
+    import random
+    rng = random.Random("c11-cancel-%s" % seed)
+    out = []
+
+    def at(kind, phase):
+        r = PHASE_COUNTS.get((kind, phase), (1, 1))[0]
+        return rng.randint(1, max(1, r)) if thorough or rng.random() < 0.5 else 1
+
+    for kind in L.KINDS:
+        base = {"kind": kind, "stack": "async", "cancellable": True}
+        if kind == "generic":            # no default hooks: the user's hooks read the prompt
+            base.update(on_open={"interact": True}, on_close={"interact": True})
+            PHASE_COUNTS.setdefault((kind, "on_close"), (1, 1))
+        hows = ["wait_for", "task"]
+        shapes = []
+        for how in hows:
+            shapes.append([{"op": "open"}, {"op": "operate"}, {"op": "close", "fault": _hang("on_close", at(kind, "on_close")), "cancel": how},
+                           {"op": "close"}, {"op": "open"}, {"op": "close"}])
+            shapes.append([{"op": "with", "fault": _hang("on_close", at(kind, "on_close")), "cancel": how, "body_ops": rng.choice([0, 1]),
+                            "body_exc": rng.choice([None, None, "ValueError"])}, {"op": "with", "body_ops": 1}])
+            shapes.append([{"op": "with", "fault": _hang("body", at(kind, "body")), "cancel": how, "body_ops": 1}, {"op": "open"}, {"op": "close"}])
+            shapes.append([{"op": "open", "fault": _hang("on_open", at(kind, "on_open")), "cancel": how}, {"op": "close", "cancel": rng.choice(hows)},
+                           {"op": "open"}, {"op": "operate"}, {"op": "close"}])
+            shapes.append([{"op": "open"}, {"op": "operate", "fault": _hang("operate", at(kind, "operate")), "cancel": how},
+                           {"op": "close", "cancel": rng.choice(hows)}, {"op": "close"}])
+            # cancelled while __aenter__ is still opening (fixed finding c11-with-cancelled-in-aenter): __aexit__ never runs
+            shapes.append([{"op": "with", "fault": _hang("on_open", at(kind, "on_open")), "cancel": how, "body_ops": 1},
+                           {"op": "open"}, {"op": "operate"}, {"op": "close"}])
+        if not thorough:
+            # every kind: both ways of cancelling close() and one with-block of each sort; the rest drawn
+            keep = [0, 6, rng.choice([1, 7]), rng.choice([2, 8]), rng.choice([5, 11])] + rng.sample([3, 4, 9, 10], 1)
+            shapes = [shapes[i] for i in sorted(set(keep))]
+        for ops in shapes:
+            out.append(dict(base, log=rng.choice(["file", "file", "file", None]), ops=ops,
+                            policy=rng.choice([("whole",), ("bytes", 3), ("random", rng.randint(0, 999), 7)])))
+    # random histories: any op may meet the quiet device; whatever waits is cancelled
+    for _ in range(200 if thorough else 24):
+        sc = gen_history(rng)
+        sc.update(stack="async", cancellable=True)
+        if sc["log"] == "bad":
+            sc["log"] = "file"
+        armed = False
+        for op in sc["ops"]:
+            f = op.get("fault")
+            if f and (not armed or rng.random() < 0.5):
+                f["kind"], f["at"] = "hang", min(f["at"], max(1, PHASE_COUNTS.get((sc["kind"], f["phase"]), (1, 1))[0]))
+                armed = True
+            op["cancel"] = rng.choice(["wait_for", "task"])
+        out.append(sc)
+    return out
+gen_cancel.__doc__ = gen_cancel.__doc__ % SIG_AENTER
+
+
+def in_aenter_region(sc, obs, i):
+    """the listed finding's region: a with-block of a cancellable history that ended by being cancelled while __aenter__
+    (open() -> on_open) was waiting for the device"""
+    op, o = sc["ops"][i], obs[i]
+    return bool(sc.get("cancellable") and op["op"] == "with" and o["res"] in CANCEL_RES and o["fired"]
+                and tuple(o["fired"]) == ("on_open", "hang"))
+
+
 HEADER_LC = """From Verif Require Import Bytes Telnet Lifecycle.
 From Gen Require Import Gen_Lifecycle.
 Definition T := t_init.
@@ -460,6 +581,8 @@ def run_lifecycle_scenario(sc, tmpdir):
 
 
 def oracle_signature(sc, obs, i, klass):
+    if klass == "release" and in_aenter_region(sc, obs, i):
+        return SIG_AENTER
     return "c11-%s" % klass
 
 
@@ -1129,10 +1252,13 @@ def _explore(rep, rng, thorough, tmpdir, info, gen_ok):
     scenarios += [gen_history(rng) for _ in range(n_rand)]
     scenarios += [gen_history(rng, malformed=True) for _ in range(n_rand // 4)]
     scenarios += gen_no_terminate(rep.seed, thorough)
+    scenarios += gen_cancel(rep.seed, thorough)          # ORACLE-ONLY (the model has no cancellation): not in `terms`
+    cdist = {"histories": 0, "ops_ended_by": {}, "hangs_ended_by_task_cancel": 0, "hangs_ended_by_wait_for_timeout": 0,
+             "cancelled_in_phase": {}, "release_points_after_cancellation": 0, "ops_cancelled_twice": 0, "kinds": {}}
     dist = {"scenarios": 0, "ops": {}, "kinds": {}, "stacks": {}, "results": {}, "faults_fired": {}, "log": {},
             "history_len": {}, "release_points": 0, "release_points_after_raise": 0, "no_terminate": 0,
             "no_terminate_timeouts_left_transport_open": 0}
-    terms, cases, viol = [], [], []
+    terms, cases, viol, oviol = [], [], [], []
     for n, sc in enumerate(scenarios):
         sc = dict(sc)
         sc["n"] = n
@@ -1161,6 +1287,23 @@ def _explore(rep, rng, thorough, tmpdir, info, gen_ok):
                 dist["release_points_after_raise"] += o["res"] != "ok"
         nontriv = any(o["fired"] or o["res"] != "ok" for o in obs)
         rep.case(json.dumps({k: v for k, v in sc.items() if k != "n"}, sort_keys=True), nontrivial=nontriv)
+        if sc.get("cancellable"):
+            cdist["histories"] += 1
+            cdist["kinds"][sc["kind"]] = cdist["kinds"].get(sc["kind"], 0) + 1
+            for op, o in zip(sc["ops"], obs):
+                h = o.get("hangs_ended") or {}
+                if o["res"] in CANCEL_RES and (h.get("cancels") or h.get("timeouts")):
+                    k = "%s:%s" % (op["op"], o["res"])
+                    cdist["ops_ended_by"][k] = cdist["ops_ended_by"].get(k, 0) + 1
+                    k = "%s/%s" % (op["op"], o["fired"][0] if o["fired"] else "?")
+                    cdist["cancelled_in_phase"][k] = cdist["cancelled_in_phase"].get(k, 0) + 1
+                    cdist["release_points_after_cancellation"] += op["op"] in ("close", "with")
+                    cdist["ops_cancelled_twice"] += (h.get("cancels", 0) + h.get("timeouts", 0)) >= 2
+                cdist["hangs_ended_by_task_cancel"] += h.get("cancels", 0)
+                cdist["hangs_ended_by_wait_for_timeout"] += h.get("timeouts", 0)
+            for (i, klass, what) in oracle(sc, obs):
+                oviol.append((sc, obs, i, klass, what))
+            continue
         terms.append(lc_case_term(sc, obs, ops_terms))
         cases.append((sc, obs))
         for (i, klass, what) in oracle(sc, obs):
@@ -1173,11 +1316,11 @@ def _explore(rep, rng, thorough, tmpdir, info, gen_ok):
                                                 "phase_io_counts": {"%s/%s" % k: list(v) for k, v in sorted(PHASE_COUNTS.items())},
                                                 "model_disagreements": None if bad is None else len(bad),
                                                 "oracle_failures": len(viol)}
+    rep.coverage["cancellation_histories"] = dict(cdist, suite="lifecycle (oracle-only)", oracle_failures=len(oviol))
     seen = set()
-    for (ci, i, klass, what) in viol:
-        sc, obs = cases[ci]
-        key = (klass, sc["ops"][i]["op"], sc["stack"])
-        if key in seen or len(seen) >= 6:
+    for (sc, obs, i, klass, what) in [cases[ci] + (i, klass, what) for (ci, i, klass, what) in viol] + oviol:
+        key = (klass, sc["ops"][i]["op"], sc["stack"], bool(sc.get("cancellable")), oracle_signature(sc, obs, i, klass))
+        if key in seen or len(seen) >= 8:
             continue
         seen.add(key)
         rep.violation("%s %s driver: %s" % (sc["kind"], sc["stack"], what),
@@ -1278,15 +1421,16 @@ def _explore(rep, rng, thorough, tmpdir, info, gen_ok):
     # ---- a broken obligation / correspondence without a failing input so far: search harder ----
     if rep.broken and not rep.violations:
         found = 0
-        for sc in enumerated(rng, True):
+        for sc in gen_cancel(rep.seed, True) + enumerated(rng, True):
             try:
                 obs, _ = run_lifecycle_scenario(dict(sc, n=0), tmpdir)
             except L.Starved:
                 continue
             for (i, klass, what) in oracle(sc, obs):
-                rep.violation("%s %s driver: %s" % (sc["kind"], sc["stack"], what),
-                              {"suite": "lifecycle", "scenario": sc, "failing_op": i, "observed": obs,
-                               "rerun": "./check C11 --replay <this file>"}, signature="c11-%s" % klass)
+                if not rep.violation("%s %s driver: %s" % (sc["kind"], sc["stack"], what),
+                                     {"suite": "lifecycle", "scenario": sc, "failing_op": i, "observed": obs,
+                                      "rerun": "./check C11 --replay <this file>"}, signature=oracle_signature(sc, obs, i, klass)):
+                    continue
                 found += 1
                 break
             if found >= 3:
@@ -1299,7 +1443,13 @@ def _explore(rep, rng, thorough, tmpdir, info, gen_ok):
                 "and SimDevice; enumerated = the device dropping, stalling or failing a write at every read/write of every phase "
                 "(on_open, operate, with-body, on_close); random = mostly-valid histories (len 2-7, hooks default/user/failing, log file/none/unopenable, "
                 "open failures) + a malformed stream (close before open, operate on closed, open on open) + NO_TERMINATE_ON_TIMEOUT histories (a stall raises and leaves the "
-                "transport open, model step SStallOpen: per kind x stack a with-block stalling in the body and open/operate-stall/close/close/open/close, + 40 (300) random); distinct = scenario JSON; "
+                "transport open, model step SStallOpen: per kind x stack a with-block stalling in the body and open/operate-stall/close/close/open/close, + 40 (300) random) "
+                "+ CANCELLATION histories (asyncio, oracle-only, own stream; fault kind hang = the device is connected and silent from a drawn read of the phase on, no scrapli timeout "
+                "running, the read really waits; the waiting call is ended from outside by asyncio.wait_for(call, t) expiring or by task.cancel(), every further wait of the same call by "
+                "task.cancel()): per driver kind close() cancelled inside on_close (wait_for | task) then close / re-open / close; with-block whose on_close waits (cancelled once) and whose "
+                "body waits (cancelled twice: in the body and again in __aexit__ -> close() -> on_close); open() cancelled inside on_open then close() (cancelled again) / re-open / operate / close; "
+                "operation cancelled then close() cancelled: quick = 5 of these 10 per kind (always both ways of cancelling close()) + 24 random histories in which any op may meet the quiet device, "
+                "thorough = all 10 x 7 kinds at drawn reads + 200 random; distinct = scenario JSON; "
                 "non-trivial = some fault fired or some op raised.  telnet-reopen: 2-3 sessions on one transport object, early sessions leave it "
                 "dirty (10 commands, EOF, command cut short); real-resources: loopback TCP device / pty child, device ok / silent / dying; "
                 "pty-child: histories of with / open / operate / close / close / re-open over the real system transport, the /bin/sh stand-in exiting "
@@ -1342,10 +1492,13 @@ def replay(path):
             sc = r["scenario"]
             obs, _ = run_lifecycle_scenario(dict(sc, n=0), tmpdir)
             for op, o in zip(sc["ops"], obs):
-                print("%-8s -> %-28s transport_open=%s log_open=%s fired=%s" % (op["op"], o["res"], o["t_open"], o["log_open"], o["fired"]))
+                print("%-8s -> %-28s transport_open=%s log_open=%s fired=%s%s" % (
+                    op["op"], o["res"], o["t_open"], o["log_open"], o["fired"],
+                    " waits ended by %s" % o["hangs_ended"] if o.get("hangs_ended") else ""))
             bad = oracle(sc, obs)
             for (i, klass, what) in bad:
-                print("op %d: %s" % (i, what))
+                print("op %d: %s%s" % (i, what, "   [listed known finding %s]" % SIG_AENTER
+                                       if oracle_signature(sc, obs, i, klass) == SIG_AENTER else ""))
             print("property FAILS on this input" if bad else "property holds on this input")
             return 1 if bad else 0
         if r.get("suite") == "telnet-reopen":
@@ -1449,13 +1602,26 @@ MANIFEST = {
             "The library transports (asyncssh, paramiko) are NOT in the theorems either — the model's transport.open() is one step that acquires all or nothing: "
             "that open() failing at ANY of its internal steps leaves nothing behind once the with-block is left / close() returned is decided by an oracle on the real "
             "code (suite ssh-open).  A pty session REPLACED by another open() on the same object is outside the theorems (handle replacement) and decided by the "
-            "pty-child oracle on every child the connection ever started.",
+            "pty-child oracle on every child the connection ever started.  CANCELLATION (asyncio.CancelledError is a BaseException, outside the model's exceptions) is NOT in the "
+            "theorems: that close() / a with-block exit release the connection when the call is cancelled while on_close (or the body, or open()) waits for a device that went quiet "
+            "(asyncio.wait_for(conn.close(), t) expiring, task.cancel() once and twice) is decided by the oracle on the real asyncio drivers (cancellation histories of suite lifecycle).",
     "note": "Proved of the model: ordering logic of the four driver methods (statement language: sequence / try-finally / try-except, Python "
             "semantics), decided for the generated programs by a verified abstract interpreter (lifecycle_ok, soundness proved). Section-free, axiom-free. "
             "Model assumptions (each confronted by the correspondence runs, not proved): transport.close()/channel.close() do not raise and release "
             "every handle the object owns; a hook/step never opens a transport; a read/write on a closed transport raises ScrapliConnectionNotOpened; "
             "a timeout either closes the transport and raises ScrapliTimeout (step SStall, the default) or, with Settings.NO_TERMINATE_ON_TIMEOUT, raises and leaves it open "
-            "(step SStallOpen; both are device outcomes the theorems quantify over, both exercised by the lifecycle correspondence: gen_no_terminate); only Exception subclasses (no KeyboardInterrupt/BaseException); "
+            "(step SStallOpen; both are device outcomes the theorems quantify over, both exercised by the lifecycle correspondence: gen_no_terminate); only Exception subclasses "
+            "(no KeyboardInterrupt/BaseException: the model's try/except catches every modelled exception, so asyncio.CancelledError — which `except Exception` does not catch and `finally` does see — "
+            "is not a model outcome; the gen translator still refuses any close()/__aexit__ shape other than sequence / try-finally / try-except Exception). "
+            "Cancellation histories are ORACLE-ONLY (no model trace is compared; same oracle, same observers as the rest of suite lifecycle: transport flag, isalive(), channel-log handle, "
+            "/proc/self/fd, threads after every op, release judged after every close() and with-block whatever their result — returned, raised, CancelledError, TimeoutError of the outer wait_for): "
+            "real asyncio drivers (5 platforms' default hooks, network, generic with user hooks that read the prompt) over AsyncFaultTransport whose read, from the drawn point on, awaits a future "
+            "nobody completes (the device stays quiet for the rest of the session; timeout_ops = 0 so no scrapli timeout ends the wait); a supervising coroutine is woken by the transport when a read "
+            "starts to wait (asyncio.Event, no sleeping) and cancels the task, or lets the 0.02 s asyncio.wait_for around the call expire (nothing else in a scripted run yields to the loop, so the "
+            "timer can only fire at that wait: deterministic); 60 histories quick (+~0.5 s), ~270 thorough; when the translator refuses the source the failing-input search runs the thorough set first. "
+            "Fixed finding c11-with-cancelled-in-aenter (4343e8e; replayed every run from findings/, and generated again: with-blocks whose on_open waits): an `async with` cancelled while __aenter__ was "
+            "still inside open() left transport and log open (__aenter__ released only under `except Exception`, __aexit__ is not called). "
+            "Not generated: cancellation of the sync drivers (KeyboardInterrupt), cancellation landing inside transport.open() of a real transport. "
             "open() on an already open connection (handle replacement) is outside the property's quantifier and not tracked. "
             "Pty child model: only PtyProcess.close() and the parent part of spawn() are translated (ast, fail-closed; gen also requires __del__ -> self.close() "
             "and SystemTransport.close -> session.close(), and that terminate(force=False) sends SIGHUP, SIGCONT, SIGINT and, exactly under `if force`, SIGKILL, "
